@@ -4,10 +4,12 @@ package main
 import (
 	"fmt"
 	"strings"
+	"sync/atomic"
 
 	"github.com/cnotch/ipchub/provider/auth"
 	"github.com/cnotch/xlog"
 
+	"ipchubverif/oracle/refmatch"
 	"ipchubverif/report"
 )
 
@@ -96,6 +98,23 @@ func refMatch(ps []pat, segs []string) bool {
 	return false
 }
 
+// openShape names what makes the input open (signature component).
+func openShape(right, path string) string {
+	switch {
+	case strings.Contains(path, " ") && strings.TrimSpace(path) != path && !strings.Contains(strings.TrimSpace(path), " "):
+		return "path-surrounding-blanks"
+	case strings.Contains(strings.TrimSpace(path), " "):
+		return "path-blank-segment"
+	case strings.Contains(path, "//"):
+		return "path-empty-segment"
+	case strings.Contains(right, "//"):
+		return "pattern-empty-segment"
+	case strings.Contains(right, "*") || strings.Contains(right, "+"):
+		return "pattern-glued-or-misplaced-wildcard"
+	}
+	return "other"
+}
+
 func allStrings(alpha string, maxLen int) []string {
 	out := []string{""}
 	prev := []string{""}
@@ -133,7 +152,7 @@ func main() {
 	if rep.Thorough() {
 		rl, pl = 7, 6
 	}
-	rep.Rule = fmt.Sprintf("all right strings up to length %d over {a,B,+,*,/,;,space} x all paths up to length %d over {a,A,b,/,space}, through the public path (User.CopyFrom + ValidatePermission, pull and push, admin and non-admin) against a reference matcher written from the statement; pairs whose right or path the guide does not define (doubled slashes, blanks inside segments, '*' not last, '+' inside a literal) are counted but not judged; distinct = distinct judged (right, path) pairs", rl, pl)
+	rep.Rule = fmt.Sprintf("all right strings up to length %d over {a,B,+,*,/,;,space} x all paths up to length %d over {a,A,b,/,space}, through the public path (User.CopyFrom + ValidatePermission, pull and push, admin and non-admin) against a reference matcher written from the statement; pairs whose right or path the guide does not define (doubled slashes, blanks inside segments, '*' not last, '+' inside a literal) are judged in a second pass under 32 readings of the guide (one length shorter in the quick tier) and only when all readings agree; distinct = distinct judged (right, path) pairs", rl, pl)
 	rights := allStrings("aB+*/; ", rl)
 	paths := allStrings("aAb/ ", pl)
 	type pinfo struct {
@@ -189,6 +208,39 @@ func main() {
 			rep.Sample(fmt.Sprintf("right %q x %d paths (e.g. %q)", right, len(judgedPaths), judgedPaths[ri%len(judgedPaths)].s))
 		}
 	})
+	// second pass: inputs the guide leaves open are judged whenever every reasonable reading agrees
+	var judged2, skipped2 int64
+	rights2, paths2 := rights, paths
+	if !rep.Thorough() { // the 32-reading pass is 30x dearer per pair: one length less in the quick tier
+		rights2, paths2 = allStrings("aB+*/; ", rl-1), allStrings("aAb/ ", pl-1)
+	}
+	rep.Parallel(len(rights2), func(ri int) {
+		right := rights2[ri]
+		_, wf := parseRight(right)
+		u := &auth.User{Name: "u"}
+		u.CopyFrom(&auth.User{Name: "u", PullAccess: right}, false)
+		var j, sk int64
+		for _, p := range paths2 {
+			if _, okp := pathSegs(p); okp && wf {
+				continue // already judged in the first pass
+			}
+			want, unanimous := refmatch.Verdict(right, false, p)
+			if !unanimous {
+				sk++
+				continue
+			}
+			j++
+			if got := u.ValidatePermission(p, auth.PullRight); got != want {
+				rep.Violation(fmt.Sprintf("pull open-input %s want=%v", openShape(right, p), want), fmt.Sprintf("right %q path %q: ValidatePermission=%v; every reading of the guide says %v", right, p, got, want), map[string]interface{}{"right": right, "path": p})
+			}
+		}
+		atomic.AddInt64(&judged2, j)
+		atomic.AddInt64(&skipped2, sk)
+		rep.Count(j)
+		rep.SeenN(j)
+	})
+	rep.Extra["open_inputs_judged_unanimous_readings"] = judged2
+	rep.Extra["open_inputs_not_judged_readings_disagree"] = skipped2
 	rep.Extra["rights_total"] = len(rights)
 	rep.Extra["rights_not_judged_undefined_by_guide"] = skippedRights
 	rep.Extra["paths_total"] = len(paths)
